@@ -3,8 +3,10 @@ package main
 // Concurrent clients over the real SQL entry point (SamehadaDB.ExecuteSQL -> RequestManager).
 // usage: verifharness c12 - <dir> <clients> <calls-per-client> <groups> <rows-per-group> <seed> <inserts-per-client> <timeout-s>
 // prints one line per call:  <client> <seq> <inv> <resp> <kind> <arg> <result>
-//   kind: W g uniq   (UPDATE acct SET v = uniq WHERE g = g)      result: ok | err:..
-//         R g        (SELECT k,v FROM acct WHERE g = g)           result: k:v,k:v,...
+//   the rows of acct form a grid: row k = r*rpg + c belongs to row group g = r and to column group h = c, so that
+//   statements over a row group and over a column group overlap in one row
+//   kind: W <g|h> <idx> uniq   (UPDATE acct SET v = uniq WHERE <g|h> = idx)      result: ok | err:..
+//         R <g|h> <idx>        (SELECT k,v FROM acct WHERE <g|h> = idx)           result: k:v,k:v,...
 //         S g        (same through a sequential scan: WHERE g = g OR g = g)
 //         I key      (INSERT of a unique key into ins)            result: ok | err
 //   inv / resp: global sequence numbers taken right before the call and right after it returned
@@ -45,11 +47,11 @@ func runC12(args []string, in *bufio.Scanner, out *bufio.Writer) {
 		memKB = int(atoi64(v))
 	}
 	db := samehada.NewSamehadaDB(dir+"/db", memKB)
-	db.ExecuteSQL("CREATE TABLE acct(k int, g int, v int);")
+	db.ExecuteSQL("CREATE TABLE acct(k int, g int, h int, v int);")
 	db.ExecuteSQL("CREATE TABLE ins(ky int, c int);")
 	for g := 0; g < groups; g++ {
 		for r := 0; r < rpg; r++ {
-			db.ExecuteSQL(fmt.Sprintf("INSERT INTO acct(k,g,v) VALUES (%d, %d, 0);", g*rpg+r, g))
+			db.ExecuteSQL(fmt.Sprintf("INSERT INTO acct(k,g,h,v) VALUES (%d, %d, %d, 0);", g*rpg+r, g, r))
 		}
 	}
 	mix := os.Getenv("VERIF_C12_MIX") != ""
@@ -78,7 +80,10 @@ func runC12(args []string, in *bufio.Scanner, out *bufio.Writer) {
 					key := c*100000 + s
 					sql, desc = fmt.Sprintf("INSERT INTO ins(ky,c) VALUES (%d, %d);", key, c), fmt.Sprintf("I %d", key)
 				} else {
-					g := rng.Intn(groups)
+					dim, idx := "g", rng.Intn(groups)
+					if rng.Intn(2) == 0 {
+						dim, idx = "h", rng.Intn(rpg)
+					}
 					switch r := rng.Intn(10); {
 					case mix && rng.Intn(4) == 0:
 						// delete one of this client's own churn rows and put it back (DELETE statements that lose a lock conflict are rolled
@@ -94,11 +99,11 @@ func runC12(args []string, in *bufio.Scanner, out *bufio.Writer) {
 						}
 					case r < 4:
 						uniq := (c+1)*100000 + s
-						sql, desc = fmt.Sprintf("UPDATE acct SET v = %d WHERE g = %d;", uniq, g), fmt.Sprintf("W %d %d", g, uniq)
+						sql, desc = fmt.Sprintf("UPDATE acct SET v = %d WHERE %s = %d;", uniq, dim, idx), fmt.Sprintf("W %s %d %d", dim, idx, uniq)
 					case r < 8:
-						sql, desc = fmt.Sprintf("SELECT k,v FROM acct WHERE g = %d;", g), fmt.Sprintf("R %d", g)
+						sql, desc = fmt.Sprintf("SELECT k,v FROM acct WHERE %s = %d;", dim, idx), fmt.Sprintf("R %s %d", dim, idx)
 					default:
-						sql, desc = fmt.Sprintf("SELECT k,v FROM acct WHERE g = %d OR g = %d;", g, g), fmt.Sprintf("S %d", g)
+						sql, desc = fmt.Sprintf("SELECT k,v FROM acct WHERE %s = %d OR %s = %d;", dim, idx, dim, idx), fmt.Sprintf("S %s %d", dim, idx)
 					}
 				}
 				call := c12call{client: c, seq: s, desc: desc}
@@ -141,6 +146,27 @@ func runC12(args []string, in *bufio.Scanner, out *bufio.Writer) {
 				db.ExecuteSQL(fmt.Sprintf("CREATE TABLE ddl%d(a int, b varchar(32));", i))
 				db.ExecuteSQL(fmt.Sprintf("INSERT INTO ddl%d(a,b) VALUES (%d, 'x');", i, i))
 				time.Sleep(2 * time.Millisecond)
+			}
+		}()
+	}
+	if os.Getenv("VERIF_C12_HOLDER") != "" {
+		// an explicit transaction that keeps shared locks on the rows of one group for a while, again and again: client updates
+		// of those rows lose the lock conflict and are retried by the request manager although no other request is running
+		go func() {
+			hs := &dbSession{db: db, txns: map[string]*access.Transaction{}}
+			shi := db.GetSamehadaInstance()
+			cat := db.GetCatalogForTesting()
+			hr := rand.New(rand.NewSource(seed + 4242))
+			for atomic.LoadInt32(&stopBg) == 0 {
+				txn := shi.GetTransactionManager().Begin(nil)
+				hs.runStmt(txn, fmt.Sprintf("SELECT k FROM acct WHERE g = %d OR g = %d;", hr.Intn(groups), hr.Intn(groups)))
+				time.Sleep(time.Duration(5+hr.Intn(30)) * time.Millisecond)
+				if txn.GetState() == access.ABORTED {
+					shi.GetTransactionManager().Abort(cat, txn)
+				} else {
+					shi.GetTransactionManager().Commit(cat, txn)
+				}
+				time.Sleep(time.Duration(hr.Intn(5)) * time.Millisecond)
 			}
 		}()
 	}
@@ -191,7 +217,7 @@ func runC12(args []string, in *bufio.Scanner, out *bufio.Writer) {
 		out.Flush()
 		os.Exit(0)
 	}
-	_, rows := db.ExecuteSQL("SELECT k,g,v FROM acct WHERE k >= 0 OR k >= 0;")
+	_, rows := db.ExecuteSQL("SELECT k,g,v FROM acct WHERE k >= 0 OR k >= 0;") // k:g:v (h = k - g*rpg)
 	var fs []string
 	for _, r := range rows {
 		fs = append(fs, fmt.Sprintf("%v:%v:%v", r[0], r[1], r[2]))
